@@ -2,7 +2,7 @@
 """keepseed.py <ID> <A|B> <caught_by comma list or 'none'> "<what I ran / result>"  : copy a confirmed seeded change into /verif/seeded/"""
 import sys, os, shutil, json
 i, x, caught, ran = sys.argv[1:5]
-src = {'A': '/tmp/seed', 'B': '/tmp/seed', 'C': '/tmp/seed2', 'D': '/tmp/seed2', 'E': '/tmp/seed3', 'F': '/tmp/seed3', 'G': '/tmp/seed4', 'H': '/tmp/seed4'}[x] + '/%s/seed_out/%s' % (i, x)
+src = {'A': '/tmp/seed', 'B': '/tmp/seed', 'C': '/tmp/seed2', 'D': '/tmp/seed2', 'E': '/tmp/seed3', 'F': '/tmp/seed3', 'G': '/tmp/seed4', 'H': '/tmp/seed4', 'I': '/tmp/seed5', 'J': '/tmp/seed5'}[x] + '/%s/seed_out/%s' % (i, x)
 dst = '/verif/seeded/%s-%s' % (i, x)
 os.makedirs(dst, exist_ok=True)
 for f in ('patch.diff', 'demo.py', 'notes.md'):
